@@ -30,4 +30,7 @@ def run(check):
     check.run_rule('C18.R4b', lambda c: rule_cache_per_descriptor(c, 'C18.R4'))
     from ..rules_modifiers import rule_getter_protocol
     check.run_rule('C18.R4c', lambda c: rule_getter_protocol(c, 'C18.R4'))
+    from ..rules_derived import rule_no_memoisation
+    check.run_rule('C18.R5', lambda c: rule_no_memoisation(c, 'C18.R5', ('_signatures', '_autoforwards', '_specifiers', '_util', 'modifiers', 'specifiers', 'wrappers'),
+                   'what a retrieval or an operation returns then depends on the calls made before it, and every caller shares one mutable result'))
     check.run_rule('C18.R1b', lambda c: rule_recursion_guard_emptied(c, 'C18.R1'))
